@@ -2,6 +2,7 @@
 from hypothesis import strategies as st
 
 from ..ref import cea608 as R
+from ..ref import sccprog as SP
 from ..runner import Sub, Violation, must, require
 
 from pycaption import SCCReader
@@ -72,7 +73,7 @@ def stream_strategy(tier):
             return {"mode": "roll", "ru": draw(st.sampled_from(["RU2", "RU3", "RU4"])),
                     "ru_each": draw(st.booleans()), "rows": rows, "drop": draw(st.booleans()),
                     "double": draw(st.booleans()), "t0": draw(st.sampled_from([0, 0, 1, 30, 108000])),
-                    "close": draw(st.booleans())}
+                    "close": draw(st.booleans()), "reuse": draw(SP.reuse_strategy())}
         bursts = []
         for b in range(draw(st.integers(1, 4))):
             n = draw(st.integers(1, 3))
@@ -85,7 +86,7 @@ def stream_strategy(tier):
             bursts.append({"rows": rows, "gap": draw(st.integers(3, 60))})
         return {"mode": "paint", "bursts": bursts, "drop": draw(st.booleans()),
                 "double": draw(st.booleans()), "t0": draw(st.sampled_from([0, 0, 1, 108000])),
-                "close": draw(st.booleans())}
+                "close": draw(st.booleans()), "reuse": draw(SP.reuse_strategy())}
     return build()
 
 
@@ -155,8 +156,11 @@ def _squash(s):
 
 def check_stream(case, rec):
     doc, rows = build(case)
+    reader = SP.used_reader(case.get("reuse"), doc)
+    if case.get("reuse"):
+        rec.label("reused-reader:" + case["reuse"][0])
     with must("SCCReader.read"):
-        cs = SCCReader().read(doc)
+        cs = reader.read(doc)
     caps = cs.get_captions(cs.get_languages()[0])
     texts = ["".join(c.get_text_nodes()) for c in caps]
     got = _squash("".join(texts))
